@@ -270,11 +270,13 @@ def rule_cursors(ctx, db):
     if not co:
         ctx.missing("R5", "BufReader::fill_buf")
     for f in co:
-        rs = calls(f, r"Buffer::<B>::reset$")
-        wi = calls(f, r"Buffer::<B>::with$")
-        ctx.ob("R5", "bufreader-reset-only-when-all-done", bool(rs) and all(guarded_by_bool(f, bb, r"Buffer::<B>::all_done$", True, db=db) is not None for bb, _ in rs),
-               "the buffer is reset only when every buffered byte was consumed (unread bytes are never discarded)", f)
-        ctx.ob("R5", "bufreader-refills-only-when-empty", bool(wi) and all(guarded_by_bool(f, bb, r"Buffer::<B>::need_fill$", True, db=db) is not None for bb, _ in wi),
+        from ..util import guarded_everywhere
+        n1, bad1 = guarded_everywhere(db, f, r"Buffer::<B>::reset$", r"Buffer::<B>::all_done$", True)
+        ctx.ob("R5", "bufreader-reset-only-when-all-done", n1 > 0 and not bad1,
+               "the buffer is reset only when every buffered byte was consumed (unread bytes are never discarded)" +
+               ("" if not bad1 else ": unguarded in " + ", ".join(g.name for g, _ in bad1)), f)
+        n2, bad2 = guarded_everywhere(db, f, r"Buffer::<B>::with$", r"Buffer::<B>::need_fill$", True)
+        ctx.ob("R5", "bufreader-refills-only-when-empty", n2 > 0 and not bad2,
                "the inner reader is asked only when the buffer is empty", f)
     ok = False
     for f in fam:
